@@ -475,7 +475,10 @@ impl<'a> Walk<'a> {
                     }
                 }
                 Ok((target, _)) => {
+                    // A link in an excluded directory is never seen. A link that is excluded
+                    // itself is not followed either, whatever form the pattern has.
                     if self.follow_links
+                        && !self.path_selector.is_excluded(&path)
                         && (!self.one_fs || self.same_fs(&target, dev))
                         && self.mark_visited(&path, EntryType::SymLink, level, &gitignore, state)
                     {
